@@ -19,6 +19,9 @@ from vf.linegram import ADDRS, spell_int
 MAXU64 = (1 << 64) - 1
 ZERO_LIT = ADDRS[0]
 LITERALS = ADDRS[1:4]
+# a valid, non-zero address (public key 0x...02540be400) that the code under test keeps as its constant for
+# "the zero address" (tealer/utils/algorand_constants.py); part of the literal pool like a fuzzing dictionary entry
+ODD_LITERAL = "AAAAAAAAAAAAAAAAAAAAAAAAAAAAAAAAAAAAAAAAAAAAEVAL4QAJS7JHB4"
 CMP_OPS = ["==", "!=", "<", "<=", ">", ">="]
 ADDR_FIELDS = ["RekeyTo", "CloseRemainderTo", "AssetCloseTo", "Sender"]
 PINNED_FIELDS = ADDR_FIELDS + ["Fee", "TypeEnum", "OnCompletion", "ApplicationID"]
@@ -67,6 +70,8 @@ def addr_const(draw, cfg: Cfg, mode: str, version: int):
             return ["addr", "ZERO", "global"]
         return ["addr", "ZERO", "addr"]
     if k <= 7 or mode != "app" or version < 3:
+        if cfg.on("addr_literal_mistaken_for_zero") and draw(st.integers(0, 5)) == 0:
+            return ["addr", ODD_LITERAL, "addr"]
         return ["addr", draw(st.sampled_from(LITERALS)), "addr"]
     return ["addr", "CREATOR", "global"]
 
@@ -208,6 +213,8 @@ def stmts(draw, cfg: Cfg, mode: str, version: int, fields, subs: List[str], dept
         if version >= 8 and depth < 2:
             kinds += ["switch"]
         kinds += ["return", "approve", "err", "reject"] if depth > 0 else ["return"]
+        if in_sub is not None and cfg.on("loop_to_sub_entry"):
+            kinds += ["spin"]
         if version >= 3 and cfg.on("gtxn_reads") and cfg.on("pinidx_stmt") and any(f in ADDR_FIELDS or f == "Fee" for f in fields):
             kinds += ["pinidx"]
         if cfg.profile == "modelled" and version >= 3:
@@ -253,6 +260,10 @@ def stmts(draw, cfg: Cfg, mode: str, version: int, fields, subs: List[str], dept
             out.append(["storecond", draw(cond(cfg, mode, version, fields)), draw(st.integers(10, 13))])
         elif kind == "passcond":
             out.append(["passcond", draw(cond(cfg, mode, version, fields))])
+        elif kind == "spin":
+            # a conditional branch back to the label of the enclosing subroutine (the entry block of the
+            # subroutine is a loop header): only executions on which the branch is not taken go on
+            out.append(["spin", draw(cond(cfg, mode, version, fields)), draw(st.sampled_from(["bnz", "bz"]))])
         elif kind == "pinidx":
             # the contract validates its own position and then its own field through that absolute index
             i = draw(st.sampled_from([0, 1, 2, 15, 15]))
@@ -538,6 +549,11 @@ class Lower:
                             self.emit(I("int", 0))
                             self.emit(I("pop"))
                 self.emit(L(end))
+        elif k == "spin":
+            self.cond(s[1])
+            self.ann(s[2], [in_sub], s[1])
+            self.feats.append("loop_to_sub_entry")
+            self.feats.append("loop")
         elif k == "while":
             bound, body, slot, dowhile = s[1], s[2], 20 + s[3], s[4]
             top, end = self.lab("loop"), self.lab()
